@@ -29,6 +29,7 @@ class C02(PropBase):
         "Non-trivial: the codec handle predates a fired cache clear (stale handle), or a peer failed on an earlier call of the "
         "same configuration, or a twin/other fault fired before; distinct = distinct (operation digest, pre-state signature)."
         ' Under the twin fault, values that compare equal to a pooled value but are written differently (Decimal exponent, equal instant at another offset, 0.0/-0.0) go through the same codec.'
+        " Under the reload fault the hint is a typing.ForwardRef naming a world class, the world's modules are executed again between two uses, every entry point is given a reference object of its own, and what is decoded must be an instance of the class the reference names now."
     )
     ASSUMPTIONS = ["mappings have str keys, ints are within 64 bits, floats finite, strings valid Unicode",
                    "decode(encode(v)) == v is judged for union-free T only; unions carry the ambiguity caveats decided under C01",
